@@ -24,6 +24,8 @@ type Gen struct {
 	vseq  int
 	// a timer task exists in this case
 	timers bool
+	// the next `mine` line carries fault=<store> (one round)
+	fault string
 }
 
 func (g *Gen) emit(line string) string {
@@ -201,7 +203,10 @@ func (g *Gen) mine(trunc int) {
 		}
 	}
 	line := "mine"
-	if trunc > 0 {
+	if g.fault != "" {
+		line += " fault=" + g.fault
+		g.fault = ""
+	} else if trunc > 0 {
 		line += fmt.Sprintf(" trunc=%d", trunc)
 	} else if g.r.Chance(1, 6) {
 		line += " fresh=1"
@@ -728,6 +733,8 @@ func (g *Gen) check() {
 		g.mine(trunc)
 	case !g.timers && g.r.Chance(1, 8):
 		g.emit("pack")
+	case !g.timers && g.r.Chance(1, 6) && g.stateAtTip():
+		g.mineFaulted()
 	default:
 		g.mine(0)
 	}
